@@ -5,6 +5,7 @@
 package main
 
 import (
+	"bufio"
 	"encoding/json"
 	"flag"
 	"fmt"
@@ -30,18 +31,27 @@ type run struct {
 	res      *vh.Result
 	pool     *pool
 	rng      *vh.RNG
-	hashes   strings.Builder // cases_hash.txt
-	dups     strings.Builder // cases_dup.txt
-	pairs    strings.Builder // cases_equal.txt
+	hashes   *bufio.Writer // cases_graph.txt
+	pairs    *bufio.Writer // cases_equal.txt
+	inputsW  *bufio.Writer // inputs.jsonl: replayable description of every case, one per line
+	nInputs  int
 	nHash    int
 	nDup     int
 	nPair    int
-	inputs   []Input // replayable description of every correspondence case, by stream
 	hashIdx  []int   // case index -> inputs index
-	dupIdx   []int
 	pairIdx  []int
 	distinct vh.Distinct
 	evals    int
+}
+
+func (r *run) addInput(in Input) {
+	b, err := json.Marshal(in)
+	if err != nil {
+		panic(err)
+	}
+	r.inputsW.Write(b)
+	r.inputsW.WriteByte('\n')
+	r.nInputs++
 }
 
 // fail records a failing input: every occurrence is counted, the first few of each
@@ -93,15 +103,29 @@ func (r *run) sameHashes(sig, what string, a, b [8]string, in Input) bool {
 	return true
 }
 
-// hashCase writes one correspondence case: the graph as the model sees it and the nine
-// observed strings (eight flag vectors of expr.Hash and the Hash method).
-func (r *run) hashCase(b *built, hs [8]string, in Input) {
+// graphCase writes one correspondence case: the graph as the model sees it, the nine
+// observed strings (eight flag vectors of expr.Hash and the Hash method) and, when cp
+// is not nil, the copy Dup returned.
+func (r *run) graphCase(b *built, hs [8]string, cp expr.DataType, in Input) {
 	n := newNamer()
 	n.collect(b.root.Type)
-	pr := &printer{p: r.pool, n: n, r: r.rng}
+	pr := &printer{p: r.pool, n: n}
+	if cp == nil {
+		pr.r = r.rng // meta entries reach the model in a random order
+	}
 	obs := append(append([]string{}, hs[:]...), b.root.Type.Hash())
-	fmt.Fprintf(&r.hashes, "(%d, %s, %s, %s)\n", r.nHash, pr.envAll(), pr.ty(b.root.Type), obsList(obs, r.res.Dist))
-	r.hashIdx = append(r.hashIdx, len(r.inputs)-1)
+	dup := "DN"
+	if cp != nil {
+		term, err := dupCase(r.pool, n, b.root.Type, cp)
+		if err != "" {
+			r.fail("copy-differs/shape", "Dup(t) does not have the shape of t: "+err, in)
+		} else {
+			dup = term
+			r.nDup++
+		}
+	}
+	fmt.Fprintf(r.hashes, "GC %d %s %s %s %s\n", r.nHash, pr.envAll(), pr.ty(b.root.Type), obsList(obs, r.res.Dist), dup)
+	r.hashIdx = append(r.hashIdx, r.nInputs-1)
 	r.nHash++
 }
 
@@ -156,7 +180,7 @@ func (gr *Graph) cyclic() bool {
 // checkGraph runs every law that concerns one graph.
 func (r *run) checkGraph(gr *Graph, stream string, withViews bool) {
 	in := Input{Stream: stream, Graph: gr}
-	r.inputs = append(r.inputs, in)
+	r.addInput(in)
 	b := buildGraph(gr)
 	root := b.root.Type
 	res := r.res
@@ -171,7 +195,15 @@ func (r *run) checkGraph(gr *Graph, stream string, withViews bool) {
 
 	// repeated calls: same answer
 	hs := r.stable(root, in)
-	r.hashCase(b, hs, in)
+	cp := expr.Dup(root)
+	if r.nHash%2 == 1 || unguardedCycle(cp) {
+		cp = nil // every other case hands the meta entries to the model in a random order instead
+	}
+	r.graphCase(b, hs, cp, in)
+
+	if r.nHash%701 == 7 || (stream == "corpus" && r.nHash == 7) {
+		r.res.Sample(map[string]any{"stream": stream, "graph": gr, "hash_all_flags_false": hs[0], "hash_equal_flags": hs[3], "hash_method_flags": hs[5]}, 5)
+	}
 
 	// a second build of the same description: other pointers, same structure
 	r.sameHashes("rebuild-changes-hash", "two builds of the same description", hs, hashAll(buildGraph(gr).root.Type), in)
@@ -253,6 +285,10 @@ func (r *run) copies(gr *Graph, b *built, hs [8]string, in Input, withViews bool
 	}
 	for _, c := range mk() {
 		r.evals += 10
+		if unguardedCycle(c.att.Type) {
+			r.fail("copy-not-hashable", c.name+"(t) contains a cycle of user types that passes through no object: hashing it does not terminate", in)
+			continue
+		}
 		if !r.sameHashes("copy-changes-hash", c.name+"(t) vs t", hs, hashAll(c.att.Type), in) {
 			continue
 		}
@@ -267,19 +303,25 @@ func (r *run) copies(gr *Graph, b *built, hs [8]string, in Input, withViews bool
 			so, sc = snapshot(b.root, ignore...), snapshot(c.att, ignore...)
 		}
 		if so != sc {
-			sig := "copy-differs/other"
-			for _, ig := range []string{"docs", "ctype"} {
-				ig2 := append([]string{ig}, ignore...)
-				o2 := snapshot(b.root, ig2...)
-				if c.name == "Dup" {
-					o2 = snapshot(&expr.AttributeExpr{Type: b.root.Type}, ig2...)
+			snap := func(a *expr.AttributeExpr, ig ...string) string { return snapshot(a, append(ig, ignore...)...) }
+			oatt := b.root
+			if c.name == "Dup" {
+				oatt = &expr.AttributeExpr{Type: b.root.Type}
+			}
+			sigs := []string{}
+			if snap(oatt, "docs", "ctype") != snap(c.att, "docs", "ctype") {
+				sigs = append(sigs, "copy-differs/other")
+			} else {
+				if snap(oatt, "ctype") != snap(c.att, "ctype") {
+					sigs = append(sigs, "copy-differs/docs")
 				}
-				if o2 == snapshot(c.att, ig2...) {
-					sig = "copy-differs/" + ig
-					break
+				if snap(oatt, "docs") != snap(c.att, "docs") {
+					sigs = append(sigs, "copy-differs/ctype")
 				}
 			}
-			r.fail(sig, c.name+"(t) is not field by field equal to t: "+firstDiff(so, sc), in)
+			for _, sig := range sigs {
+				r.fail(sig, c.name+"(t) is not field by field equal to t: "+firstDiff(so, sc), in)
+			}
 		}
 		for _, cl := range sharedClasses(b.root, c.att) {
 			switch {
@@ -330,6 +372,9 @@ func firstDiff(a, b string) string {
 }
 
 // checkPair: Equal against the independent structural comparison, both directions.
+// wantBisim: 0 = a structurally different neighbour is intended; 1 = the second graph
+// differs only in what Equal ignores (must be Equal; the pair also goes to the model);
+// 2 = same description (must be Equal).
 func (r *run) checkPair(g1, g2 *Graph, stream, note string, wantBisim int) {
 	in := Input{Stream: stream, Graph: g1, Other: g2, Note: note}
 	b1, b2 := buildGraph(g1), buildGraph(g2)
@@ -337,15 +382,17 @@ func (r *run) checkPair(g1, g2 *Graph, stream, note string, wantBisim int) {
 	bs := bisim(b1.root.Type, b2.root.Type, map[pairKey]bool{})
 	r.evals++
 	r.res.Count(fmt.Sprintf("pairs: equal=%v structurally_equal=%v", eq, bs))
-	r.inputs = append(r.inputs, in)
+	r.addInput(in)
 	// model side: Equal computed from the model's hashes
-	n1, n2 := newNamer(), newNamer()
-	n1.collect(b1.root.Type)
-	n2.collect(b2.root.Type)
-	p1, p2 := &printer{p: r.pool, n: n1, r: r.rng}, &printer{p: r.pool, n: n2, r: r.rng}
-	fmt.Fprintf(&r.pairs, "(%d, %s, %s, %s, %s, %s)\n", r.nPair, p1.envAll(), p1.ty(b1.root.Type), p2.envAll(), p2.ty(b2.root.Type), vh.CoqBool(eq))
-	r.pairIdx = append(r.pairIdx, len(r.inputs)-1)
-	r.nPair++
+	if wantBisim < 2 {
+		n1, n2 := newNamer(), newNamer()
+		n1.collect(b1.root.Type)
+		n2.collect(b2.root.Type)
+		p1, p2 := &printer{p: r.pool, n: n1, r: r.rng}, &printer{p: r.pool, n: n2, r: r.rng}
+		fmt.Fprintf(r.pairs, "PC %d %s %s %s %s %s\n", r.nPair, p1.envAll(), p1.ty(b1.root.Type), p2.envAll(), p2.ty(b2.root.Type), vh.CoqBool(eq))
+		r.pairIdx = append(r.pairIdx, r.nInputs-1)
+		r.nPair++
+	}
 	if eq && !bs {
 		sig := "equal-collision/other"
 		switch {
@@ -368,8 +415,23 @@ func main() {
 	tier := flag.String("tier", "quick", "")
 	out := flag.String("out", ".", "")
 	replay := flag.String("replay", "", "")
+	digest := flag.String("digest", "", "only write the hashes of the first graphs of the seed to this file (compared across fresh processes)")
 	flag.Parse()
+	if *digest != "" {
+		writeDigest(*seed, *digest)
+		return
+	}
 	r := &run{res: vh.NewResult(), pool: newPool(), rng: vh.NewRNG(*seed), distinct: vh.Distinct{}}
+	var files []*os.File
+	open := func(name string) *bufio.Writer {
+		f, err := os.Create(filepath.Join(*out, name))
+		if err != nil {
+			panic(err)
+		}
+		files = append(files, f)
+		return bufio.NewWriterSize(f, 1<<20)
+	}
+	r.hashes, r.pairs, r.inputsW = open("cases_graph.txt"), open("cases_equal.txt"), open("inputs.jsonl")
 
 	if *replay != "" {
 		raw, err := os.ReadFile(*replay)
@@ -396,9 +458,9 @@ func main() {
 	res := r.res
 	res.Evaluations = r.evals
 	res.Distinct = len(r.distinct)
-	res.Rule = "type graphs built as expr values: depth <= 5 over the 12 primitives, arrays, maps, inline objects, unions, 0-3 user/result types (mutually recursive through objects, same type name under different UIDs, struct:type:name), 0-3 meta keys per attribute (struct:field:* and others), validations, views; per graph: 8 flag vectors x 32 calls, every permutation of the root entries when it has 2-4, two deep shuffles, rebuild, Dup and DupAtt (hash, Equal, field-by-field dump, pointer sharing, 12 kinds of mutation through the copy); pairs: graph vs one-step structural neighbour inside the class of hash_sound_partial; witness streams for the recorded findings. non-trivial = not a bare primitive; distinct = distinct (user types, root) descriptions"
-	res.Extra["hash_cases"] = r.nHash
-	res.Extra["dup_cases"] = r.nDup
+	res.Rule = "type graphs built as expr values: depth <= 5 over the 12 primitives, arrays, maps, inline objects, unions, 0-3 user/result types (mutually recursive through objects, same type name under different UIDs, struct:type:name), 0-3 meta keys per attribute (struct:field:* and others), validations, views; per graph: 8 flag vectors x 32 calls, every permutation of the root entries when it has 2-4, a shuffle of every object / union / meta list at all depths, rebuild, Dup and DupAtt (hash, Equal, field-by-field dump, pointer sharing, 12 kinds of mutation through the copy); pairs: graph vs one-step structural neighbour inside the class of hash_sound_partial; witness streams for the recorded findings. non-trivial = not a bare primitive; distinct = distinct (user types, root) descriptions"
+	res.Extra["graph_cases"] = r.nHash
+	res.Extra["graph_cases_with_copy"] = r.nDup
 	res.Extra["pair_cases"] = r.nPair
 	res.Extra["pool_strings"] = len(r.pool.strs)
 	write := func(name, s string) {
@@ -406,22 +468,50 @@ func main() {
 			panic(err)
 		}
 	}
-	write("cases_hash.txt", r.hashes.String())
-	write("cases_dup.txt", r.dups.String())
-	write("cases_equal.txt", r.pairs.String())
-	write("header.v", r.pool.header())
-	// replayable inputs of the correspondence cases, one JSON document per line
-	var jl strings.Builder
-	enc := json.NewEncoder(&jl)
-	for _, in := range r.inputs {
-		if err := enc.Encode(in); err != nil {
+	for _, w := range []*bufio.Writer{r.hashes, r.pairs, r.inputsW} {
+		if err := w.Flush(); err != nil {
 			panic(err)
 		}
 	}
-	write("inputs.jsonl", jl.String())
-	idx, _ := json.Marshal(map[string][]int{"hash": r.hashIdx, "dup": r.dupIdx, "equal": r.pairIdx})
+	for _, f := range files {
+		f.Close()
+	}
+	write("header.v", r.pool.header())
+	idx, _ := json.Marshal(map[string][]int{"graph": r.hashIdx, "equal": r.pairIdx})
 	write("case_index.json", string(idx))
 	if err := res.Write(filepath.Join(*out, "result.json")); err != nil {
+		panic(err)
+	}
+}
+
+// writeDigest lists, for the corpus and the first 1500 generated graphs of the seed, the
+// eight hashes of the root and of its copy. Two processes must write the same file: a
+// hash that depends on map iteration order, on addresses or on anything else that
+// changes from run to run shows up as a difference.
+func writeDigest(seed uint64, path string) {
+	rng := vh.NewRNG(seed)
+	var b strings.Builder
+	emit := func(i int, gr *Graph) {
+		bl := buildGraph(gr)
+		hs := hashAll(bl.root.Type)
+		cs := hashAll(expr.Dup(bl.root.Type))
+		fmt.Fprintf(&b, "%d", i)
+		for k := range hs {
+			fmt.Fprintf(&b, "\t%q\t%q", hs[k], cs[k])
+		}
+		b.WriteString("\n")
+	}
+	n := 0
+	for _, g := range corpus() {
+		emit(n, g)
+		n++
+	}
+	for i := 0; i < 1500; i++ {
+		g := &gen{r: rng, cfg: genCfg{maxDepth: 1 + rng.Intn(5), maxUsers: 3, maxFields: 4}}
+		emit(n, g.graph())
+		n++
+	}
+	if err := os.WriteFile(path, []byte(b.String()), 0o644); err != nil {
 		panic(err)
 	}
 }
